@@ -56,7 +56,10 @@ THEOREMS = [
     "Klong.C17.completed_set_is_durable",
     "Klong.C17.WF_prefix",
     "Klong.C17.fixed_write_path_wf",
+    "Klong.C17.scratchOf_fixed",
     "Klong.C17.kvs_crash_safe",
+    "Klong.C17.rename_without_dir_fsync_loses_completed_overwrite",
+    "Klong.C17.rename_with_dir_fsync_wf",
     "Klong.C17.overwrite_can_lose_old_value_of_same_key",
     "Klong.C17.pinned_small_value_not_durable",
     "Klong.C17.pinned_new_key_can_vanish_strict",
@@ -400,6 +403,26 @@ class Recorder:
                 return real_os.close(fd)
 
             @staticmethod
+            def replace(src, dst, *a, **kw):
+                rec.boundary()
+                real_os.replace(src, dst, *a, **kw)
+                rec.done(f"rename:{wpath(rec.rel(src))}:{wpath(rec.rel(dst))}")
+
+            @staticmethod
+            def rename(src, dst, *a, **kw):
+                rec.boundary()
+                real_os.rename(src, dst, *a, **kw)
+                rec.done(f"rename:{wpath(rec.rel(src))}:{wpath(rec.rel(dst))}")
+
+            @staticmethod
+            def unlink(path, *a, **kw):
+                rec.boundary()
+                real_os.unlink(path, *a, **kw)
+                rec.done(f"unlink:{wpath(rec.rel(path))}")
+
+            remove = unlink
+
+            @staticmethod
             def _other(name):
                 def f(*a, **kw):
                     rec.done(f"{name}:UNMODELLED")
@@ -407,7 +430,7 @@ class Recorder:
                 return f
 
         fos = FakeOs()
-        for nm in ("rename", "replace", "remove", "unlink", "rmdir", "truncate", "ftruncate", "link", "symlink",
+        for nm in ("rmdir", "truncate", "ftruncate", "link", "symlink",
                    "write", "fdatasync", "sync"):
             setattr(fos, nm, FakeOs._other(nm))
         self._saved = (fcm.__dict__.get("open", None), fcm.os)
@@ -526,14 +549,19 @@ def parse_image(s):
 def ghost(ops):
     """completed sets (last value per key, as pickled hex) and the key in progress, from begin/ret markers"""
     cur, done = None, {}
+    HISTORY.clear()
     for o in ops:
         if o.startswith("begin:"):
             _, k, v = o.split(":")
             cur = (unwpath(k), v)
         elif o == "ret" and cur is not None:
+            HISTORY.setdefault(cur[0], []).append(cur[1])
             done[cur[0]] = cur[1]
             cur = None
     return (cur[0] if cur else None), done
+
+
+HISTORY = {}      # key -> all completed values (pickled hex), oldest first; filled by ghost()
 
 
 
@@ -550,8 +578,14 @@ def _par(p):
     return p.rsplit("/", 1)[0] if "/" in p else ""
 
 
+def _py_choices(st, f):
+    """what path f may show after a crash: its alternatives, or what it names now"""
+    cur = (sorted(set(_contents(st["dcont"].get(f, b""), st["pend"].get(f, [])))) if f in st["vfiles"] else [None])
+    return list(st["alt"].get(f, [])) + cur
+
+
 def py_state(ops):
-    st = dict(vdirs=[], vfiles={}, ddirs=set(), dents=set(), dcont={}, pend={})
+    st = dict(vdirs=[], vfiles={}, ddirs=set(), alt={}, dcont={}, pend={})
     for o in ops:
         p = o.split(":")
         a = unwpath(p[1]) if len(p) > 1 and p[0] != "begin" else None
@@ -561,6 +595,7 @@ def py_state(ops):
             if a in st["vfiles"]:
                 st["pend"].setdefault(a, []).append(("trunc",))
             else:
+                st["alt"][a] = _py_choices(st, a)
                 st["dcont"][a] = b""
                 st["pend"][a] = []
             st["vfiles"][a] = b""
@@ -573,7 +608,21 @@ def py_state(ops):
             st["pend"][a] = []
         elif p[0] == "fsyncdir":
             st["ddirs"] |= {d for d in st["vdirs"] if _par(d) == a}
-            st["dents"] |= {f for f in st["vfiles"] if _par(f) == a}
+            st["alt"] = {f: x for f, x in st["alt"].items() if _par(f) != a}
+        elif p[0] == "rename":
+            b = unwpath(p[2])
+            ca, cb = _py_choices(st, a), _py_choices(st, b)
+            st["vfiles"][b] = st["vfiles"].pop(a, b"")
+            st["dcont"][b] = st["dcont"].pop(a, b"")
+            st["pend"][b] = st["pend"].pop(a, [])
+            st["alt"][a] = ca
+            st["alt"][b] = cb
+        elif p[0] == "unlink":
+            ca = _py_choices(st, a)
+            st["vfiles"].pop(a, None)
+            st["dcont"].pop(a, None)
+            st["pend"].pop(a, None)
+            st["alt"][a] = ca
     return st
 
 
@@ -600,8 +649,11 @@ def py_images(ops, limit=20000):
     opt = [d for d in st["vdirs"] if d not in st["ddirs"]]
     per_file = []
     total = 2 ** len(opt)
-    for f in st["vfiles"]:
-        ch = ([] if f in st["dents"] else [None]) + sorted(set(_contents(st["dcont"].get(f, b""), st["pend"].get(f, []))))
+    for f in list(st["vfiles"]) + [f for f in st["alt"] if f not in st["vfiles"]]:
+        ch = []
+        for c in _py_choices(st, f):
+            if c not in ch:
+                ch.append(c)
         per_file.append((f, ch))
         total *= len(ch)
     if total > limit:
@@ -715,6 +767,10 @@ def check_images(ctx, drv, ops_prefix, sets_json, bufsize, scratch, cap, label):
                 if kind == "undef":
                     ctx.oracle_fail("kvs:crash:completed-key-missing", dict(case, key=k), want, ":undefined",
                                     "a set that had returned is lost by a crash (its directory entry was never synced)")
+                elif raw in HISTORY.get(k, [])[:-1] and raw != done[k]:
+                    ctx.oracle_fail("kvs:crash:completed-key-reads-old-value", dict(case, key=k), want, f"{kind}:{val}",
+                                    "a set that had returned is undone by a crash: the store reads the PREVIOUS value "
+                                    "(the directory-entry update that installs the new file was never synced)")
                 elif kind == "raises" or val != want:
                     ctx.oracle_fail("kvs:crash:completed-key-corrupt", dict(case, key=k), want,
                                     f"{kind}:{val} raw={raw[:80]}",
@@ -801,7 +857,9 @@ def lean_op(o):
         return f".write {unp(p[1])} {lean_bytes(p[2])}"
     if p[0] == "ret":
         return ".ret"
-    name = dict(mkdir="mkdir", creat="creatTrunc", fsync="fsyncFile", fsyncdir="fsyncDir", close="close").get(p[0])
+    if p[0] == "rename" and len(p) == 3 and all(x.replace(".", "").replace("-", "0").isdigit() for x in p[1:]):
+        return f".rename {unp(p[1])} {unp(p[2])}"
+    name = dict(mkdir="mkdir", creat="creatTrunc", fsync="fsyncFile", fsyncdir="fsyncDir", close="close", unlink="unlink").get(p[0])
     if name is None or len(p) != 2 or not all(x.isdigit() for x in p[1].replace("-", "0").split(".")):
         return None
     return f".{name} {unp(p[1])}"
@@ -817,18 +875,19 @@ def kernel_obligations(ctx, runs, sk, flag):
     from klongpy.db.helpers import serialize_obj
     lines = ["import Klong.Props.C17Gen", "open Klong.C17", "set_option maxRecDepth 100000", ""]
     names = {}
-    skl = "[" + ", ".join(SK_LEAN[t] for t in sk) + "]"
+    skl = "[" + ", ".join(SK_LEAN[t] for t in sk) + "]" if sk is not None else None
     fl = "true" if flag else "false"
-    # the extracted skeleton is the one `fixed_write_path_wf` / `kvs_crash_safe` are proved for
-    names[len(lines) + 1] = "extracted skeleton of _write_file = skFixed and use_fsync = true (scope of kvs_crash_safe)"
-    lines.append(f"example : (({skl} : List Sk), {fl}) = (skFixed, true) := by decide")
+    if sk is not None:
+        # the extracted skeleton is the one `fixed_write_path_wf` / `kvs_crash_safe` are proved for
+        names[len(lines) + 1] = "extracted skeleton of _write_file = skFixed and use_fsync = true (scope of kvs_crash_safe)"
+        lines.append(f"example : (({skl} : List Sk), {fl}) = (skFixed, true) := by decide")
     allkeys = sorted({k for r in runs for k, _ in r["sets"]})
     names[len(lines) + 1] = "ValidKeys (keys used by this run) (hypothesis of kvs_crash_safe)"
     lines.append(f"example : ValidKeys [{', '.join(lpath(k) for k in allkeys)}] := by decide")
     for i, r in enumerate(runs):
         lops = [lean_op(o) for o in r["ops"]]
         sets = "[" + ", ".join(f"({lpath(k)}, {lean_bytes(serialize_obj(v).hex())})" for k, v in r["sets"]) + "]"
-        model = f"traceOf .strict {skl} {fl} {r['buf']} init {sets}"
+        model = f"traceOf .strict {skl} {fl} {r['buf']} init {sets}" if sk is not None else None
         if None in lops:
             ctx.obligation(f"run{i}: recorded trace is expressible in the model", False,
                            str([o for o, l in zip(r["ops"], lops) if l is None][:3]))
@@ -839,7 +898,9 @@ def kernel_obligations(ctx, runs, sk, flag):
                          ("WF .strict (traceOf skeleton sets)", f"WF .strict ({model}) = true"),
                          ("crash_safety instantiated at the recorded trace",
                           f"∀ pre suf, ({rec} : List Op) = pre ++ suf → ∀ c ∈ crashAfter .strict pre, "
-                          f"∀ k, inProgress pre ≠ some k → recover c k = lastCompleted pre k")):
+                          f"∀ k, inProgress pre ≠ some k → k ∉ scratchOf pre → recover c k = lastCompleted pre k")):
+            if model is None and "traceOf" in nm:
+                continue
             names[len(lines) + 1] = f"run{i}: {nm}"
             if nm.startswith("crash_safety"):
                 lines.append(f"example : {stmt} := fun pre suf h => crash_safety_core .strict _ pre suf h (by decide +kernel)")
@@ -904,7 +965,7 @@ def kill_runs(ctx, drv, sets, bufsize, label):
                         ctx.oracle_fail("kvs:kill:completed-key-lost", dict(case, key=k), want, f"{kind}:{val}")
                 elif kind != "undef":
                     ctx.oracle_fail("kvs:kill:other-key-fails", dict(case, key=k), ":undefined", f"{kind}:{val}")
-            if drv is not None:
+            if drv is not None and not any(o.startswith(("rename:", "unlink:")) for o in ops):
                 drv.ask("new variant=strict")
                 for o in ops[:b]:
                     drv.ask("op " + o)
@@ -979,7 +1040,7 @@ def run(ctx):
                 runs.append(r)
                 if len(ctx.samples) < 4:
                     ctx.sample(dict(sets=[[k, v] for k, v in sets], bufsize=bufsize, trace=r["ops"][:12]))
-        if sk is not None and runs:
+        if runs:
             kernel_obligations(ctx, runs if quick else runs[:16], sk, bool(flag))
         if not quick:
             for i in range(4):
@@ -1000,7 +1061,7 @@ def replay(ctx, case):
             kill_runs(ctx, drv, sets, c.get("bufsize"), "replay")
         else:
             r = run_sequence(ctx, drv, sets, c.get("bufsize"), sk, bool(flag), 100000, "replay")
-            if r is not None and sk is not None:
+            if r is not None:
                 kernel_obligations(ctx, [r], sk, bool(flag))
     finally:
         if drv:
